@@ -173,7 +173,12 @@ func c16Triples(c *Ctx, n int) []c16Triple {
 			g := &cueGen{r: r}
 			root, steps := c13Root(g, 2)
 			txt := cueSchemaText(g, root)
-			qs := []string{"", " ", "// c", "$", "@", "$.", "$..a", "$.input.", "{", "{OR}", "{AND,$.input}", "$.input[", "$.input[@.a", "$.input.Equal(", "$.input.Equal(NaN)", "$.input?.x", "$.\xff\xfe", "$.input.NoSuch()", "$.input.name.Equal(\"unterminated", strings.Repeat("{", 50), "$.input" + strings.Repeat(".a", 200), randomBytes(r, 1+r.Intn(30))}
+			qs := []string{"", " ", "// c", "$", "@", "$.", "$..a", "$.input.", "{", "{OR}", "{AND,$.input}", "$.input[", "$.input[@.a", "$.input.Equal(", "$.input.Equal(NaN)", "$.input?.x", "$.\xff\xfe", "$.input.NoSuch()", "$.input.name.Equal(\"unterminated", strings.Repeat("{", 50), "$.input" + strings.Repeat(".a", 200), randomBytes(r, 1+r.Intn(30)),
+				// keys that begin with `_` without being identifiers (a hidden-field selector cannot be made from them)
+				"$._a+b", "$.input._a+b", "$.input._é", "$._#x", "$.#x", "$._", "$.__", "$._1", "$.input._a b", "$._a-b",
+				// an error deep inside nested groups: the text that reports it must stay proportionate
+				strings.Repeat("{", 8) + "$.zzz.Equal(1)" + strings.Repeat("}", 8), strings.Repeat("{", 24) + "$.zzz.Equal(1)" + strings.Repeat("}", 24),
+				strings.Repeat("{OR,", 28) + "$.input.Nope()" + strings.Repeat("}", 28), "$.input.Equal(" + strings.Repeat("{", 26) + "$.zzz.Equal(1)" + strings.Repeat("}", 26) + ")"}
 			ss := []string{"", " ", "{", "input: {", "input: string | int", "input: null", "#D: {a: #D}\ninput: #D", "input: {a: string}\ninput: {a: int}", "x: y", "input: {_dependencies: [1]}", "input: {_dependencies: \"s\"}", "input: {_dependencies: [\"input\"]}", txt[:len(txt)/2], randomBytes(r, 1+r.Intn(40)), txt}
 			cps := []string{"", "input", "nosuchstep", " ", "input.a", steps[r.Intn(len(steps))]}
 			q := qs[r.Intn(len(qs))]
@@ -185,6 +190,16 @@ func c16Triples(c *Ctx, n int) []c16Triple {
 				q = "$.input"
 			}
 			ts = append(ts, c16Triple{q, s, cps[r.Intn(len(cps))], "malformed", nil})
+		}
+	}
+	// every odd key and every deep nesting at least once against a schema that compiles (the validation walk is reached)
+	{
+		schema := "input: {\n\tname: string\n\t_h: int\n\t\"_q x\": int\n\t_dependencies: []\n}\n"
+		for _, q := range []string{"$._a+b", "$.input._a+b", "$.input._é", "$._#x", "$.#x", "$._", "$.__", "$._1", "$.input._a b", "$._a-b", "$.input._h", "$.input._q x", "$.input._h+",
+			strings.Repeat("{", 8) + "$.zzz.Equal(1)" + strings.Repeat("}", 8), strings.Repeat("{", 24) + "$.zzz.Equal(1)" + strings.Repeat("}", 24),
+			strings.Repeat("{OR,", 28) + "$.input.Nope()" + strings.Repeat("}", 28), "$.input.name.Equal(" + strings.Repeat("{", 26) + "$.zzz.Equal(1)" + strings.Repeat("}", 26) + ")",
+			"$.input.name.Equal(" + strings.Repeat("$.input.name.Equal(", 30) + "$.zzz" + strings.Repeat(")", 31)} {
+			ts = append(ts, c16Triple{q, schema, "", "malformed/odd-keys-and-deep-nesting", nil})
 		}
 	}
 	// First / Last / Index on a TOP-LEVEL list of structs next to queries that address a struct-typed field: both reach the
